@@ -247,6 +247,15 @@ def _fold_lookup(node):
             g = None
         if g is not None and en.prog.is_respelling(g):
             return node.args[0]
+    if isinstance(node, ast.Call) and len(node.args) == 2 and \
+            not node.keywords and U_(node.func) in (
+                'operator.getitem', 'getitem') and (
+                    en is None or not en._stack or (en.prog.resolve(
+                        en._stack[-1].module, node.func) or '').endswith(
+                            'operator.getitem')):
+        # operator.getitem(a, b) is a[b]
+        return ast.copy_location(ast.Subscript(
+            value=node.args[0], slice=node.args[1], ctx=ast.Load()), node)
     if isinstance(node, ast.Attribute) and node.attr == 'dest' and \
             isinstance(node.ctx, ast.Load) and en is not None and isinstance(
                 node.value, (ast.Name, ast.Attribute)):
@@ -413,13 +422,49 @@ class _Subst(ast.NodeTransformer):
     def visit_Subscript(self, node):
         node = self.generic_visit(node)
         f = _fold_lookup(node)
-        return f if f is not None else node
+        if f is not None:
+            return f
+        # (a, b, c, d)[:3] / [1:] of a display written out right there
+        v, k = node.value, node.slice
+        if isinstance(node.ctx, ast.Load) and isinstance(
+                v, (ast.Tuple, ast.List)) and isinstance(k, ast.Slice) and \
+                k.step is None and not any(isinstance(e, ast.Starred)
+                                           for e in v.elts) and all(
+                    b is None or (isinstance(b, ast.Constant)
+                                  and isinstance(b.value, int))
+                    for b in (k.lower, k.upper)):
+            lo = k.lower.value if k.lower is not None else None
+            hi = k.upper.value if k.upper is not None else None
+            return ast.copy_location(type(v)(elts=v.elts[lo:hi],
+                                             ctx=ast.Load()), node)
+        return node
+
+    def visit_BinOp(self, node):
+        node = self.generic_visit(node)
+        a, b = node.left, node.right
+        if isinstance(a, ast.Constant) and isinstance(b, ast.Constant) and \
+                type(a.value) is int and type(b.value) is int and isinstance(
+                    node.op, (ast.Add, ast.Sub, ast.Mult)) and abs(
+                        a.value) < 10 ** 6 and abs(b.value) < 10 ** 6:
+            r = {ast.Add: a.value + b.value, ast.Sub: a.value - b.value,
+                 ast.Mult: a.value * b.value}[type(node.op)]
+            return ast.copy_location(ast.Constant(value=r), node)
+        return node
 
     def visit_Call(self, node):
         node = self.generic_visit(node)
         f = _fold_lookup(node)
         if f is not None:
             return f
+        # len of a display written out right there
+        if isinstance(node.func, ast.Name) and node.func.id == 'len' and \
+                len(node.args) == 1 and not node.keywords and isinstance(
+                    node.args[0], (ast.Tuple, ast.List)) and not any(
+                        isinstance(e, ast.Starred)
+                        for e in node.args[0].elts) and not self._shadowed(
+                            'len'):
+            return ast.copy_location(ast.Constant(
+                value=len(node.args[0].elts)), node)
         if isinstance(node.func, ast.IfExp):
             # (f if c else g)(args) is f(args) if c else g(args)
             return ast.IfExp(
@@ -614,6 +659,31 @@ class Enumerator:
                 node = self.generic_visit(node)
                 return _unroll_display_comp(node) if base else node
             visit_DictComp = visit_ListComp = _comp
+
+            def visit_Call(self, node):
+                # f(**d) where d names a display {'k': v} nothing was done
+                # to is f(k=v)
+                syms = [k.value.id for k in node.keywords
+                        if k.arg is None and isinstance(k.value, ast.Name)]
+                node = self.generic_visit(node)
+                kws = []
+                i = 0
+                for k in node.keywords:
+                    if k.arg is None:
+                        sym = syms[i] if i < len(syms) else None
+                        i += 1 if isinstance(k.value, ast.Dict) or True else 0
+                        if isinstance(k.value, ast.Dict) and k.value.keys \
+                                and all(isinstance(x, ast.Constant)
+                                        and isinstance(x.value, str)
+                                        for x in k.value.keys) and (
+                                    sym is None or sym not in touched):
+                            for kk, vv in zip(k.value.keys, k.value.values):
+                                kws.append(ast.keyword(arg=kk.value,
+                                                       value=vv))
+                            continue
+                    kws.append(k)
+                node.keywords = kws
+                return node
         return X().visit(copy.deepcopy(expr))
 
     # ----------------------------------------------------------------- run
@@ -3266,6 +3336,8 @@ class Enumerator:
                     for c in ast.walk(sub):
                         if isinstance(c, ast.Call):
                             cs = subst(c, st.env)
+                            if not isinstance(cs, ast.Call):
+                                continue    # folded to a plain expression
                             self._ev(s, 'maycall', cs, getattr(
                                 c, 'lineno', node.lineno))
                             self._invalidate_call(s, cs)
